@@ -406,6 +406,10 @@ def probe(sim, mon, snaps):
         # independent of the observations' status as well: an observation that began at b holds its arrays during [b, b + duration)
         if sum(b['obs'].demand for b in mon.begin if env.now < b['t'] + b['obs'].duration) > tel.total_arrays:
             mon.tag('C08/observations-within-their-duration-hold-more-arrays-than-exist')
+        # ... and no longer once that window has elapsed (one step of grace: the finish is processed during step begin + duration):
+        # arrays counted in use beyond it keep a due observation waiting although the telescope is free
+        if tel.telescope_use > sum(b['obs'].demand for b in mon.begin if -(-(b['t'] + b['obs'].duration) // 1) >= env.now):
+            mon.tag('C08/arrays-still-held-after-the-observation-window-elapsed')
         if len(r['ingest']) > tel.max_ingest:
             mon.tag('C08/ingest-machines-exceed-limit')
         truly_idle = len(cl._tasks['running']) == 0 and len(r['occupied']) == 0 and len(r['ingest']) == 0
